@@ -2883,7 +2883,10 @@ func (x *SX) inlinable(f *types.Func, recv Term, st *sxState) *ast.FuncDecl {
 			return nil // dynamic dispatch
 		}
 	}
-	if f.Exported() {
+	if f.Exported() && sig.Recv() == nil && !pinnedFuncs[f.Name()] {
+		// an exported function added to the package later (ParseBytes, MustParseList): a helper like any other for the functions of
+		// the pinned API that are re-expressed through it
+	} else if f.Exported() {
 		// the public API is the vocabulary rules are phrased in; only private helpers are inlined — unless the rule asks for exported
 		// methods called statically on the bare receiver (no dynamic dispatch through Ego()) to be followed too
 		rv, bare := recv.(TVar)
@@ -3161,6 +3164,18 @@ func simplify(t Term) Term {
 				if a.Val.Kind() == b.Val.Kind() && a.Val.Kind() != constant.Unknown {
 					return TConst{constant.MakeBool(constant.Compare(a.Val, v.Op, b.Val))}
 				}
+			}
+		}
+		// x + 0, 0 + x, x - 0 over integers are x (an offset parameter bound to 0 at an inline site)
+		if v.Op == token.ADD || v.Op == token.SUB {
+			isZero := func(k TConst, ok bool) bool {
+				return ok && k.Val.Kind() == constant.Int && constant.Sign(k.Val) == 0
+			}
+			if isZero(b, bok) && intLike(v.X) {
+				return v.X
+			}
+			if v.Op == token.ADD && isZero(a, aok) && intLike(v.Y) {
+				return v.Y
 			}
 		}
 		// x == true, x != false are x; x == false, x != true are !x
